@@ -78,6 +78,32 @@ CHECKS = {
              "allow_only_kwargs/allow_args calls whose every output entry (f = sum 10^position x) or rejection is judged by TLC.",
         note="Exhaustive within the stated bounds; array lengths 2,3,4,... make the axis order visible.",
         technique="TLC exhaustive enumeration of signatures/calls + replay + TLC trace validation", ref="§6 C19"),
+    "C14": dict(
+        text="get_function_representation is evaluated on spaces covering every feasibility pattern of 1-3 restricted states that "
+             "occurs among the TLC-enumerated masks, random unrestricted discrete axes and 0-3 continuous axes (linear and log), at "
+             "points on nodes, inside cells and outside linear ranges; TLC compares every value with TraceUnits!FuncRep (indexer "
+             "look-up + discrete look-up + Interp!MapCoordinates at Interp!Coord).",
+        note="Exact equality for linear grids with dyadic points; 2^-9 relative with a log axis (TLA+ works from exact nodes).",
+        technique="TLC-enumerated feasibility patterns + replay + TLC trace validation against the interpolation semantics", ref="§6 C14"),
+    "C15": dict(
+        text="map_coordinates on integer arrays of rank 1-4 at dyadic coordinates (nodes, cells, up to two cells outside; batched "
+             "and unbatched) must equal Interp!MapCoordinates exactly; LinspaceGrid/LogspaceGrid.get_coordinate must satisfy the "
+             "grid laws (node i -> i, strict monotonicity, = Interp!Coord, round trip) as judged by TLC.",
+        note="Seeded cases; log grids and non-power-of-two linear grids within a few-ulp tolerance; no statement about exp/log accuracy.",
+        technique="TLC trace validation of recorded kernel/coordinate calls against Interp.tla", ref="§6 C15"),
+    "C16": dict(
+        text="MC_Grids enumerates all 5780 combinations of abstract input classes of the continuous grid constructors with the "
+             "specification's decision (must reject / laws of the array form); each is replayed into LinspaceGrid/LogspaceGrid, plus "
+             "seeded valid specifications (1-100 points, six orders of magnitude) and 15 category classes for DiscreteGrid; TLC judges "
+             "outcome class and the array laws on normalised observations.",
+        note="Exhaustive over the class combinations; float32-unresolvable grids are a listed known finding, not generated.",
+        technique="TLC enumeration of an input-class decision table + replay + TLC trace validation", ref="§6 C16"),
+    "C20": dict(
+        text="On the exact family v_i = s ln2 m_i (sum 2^(m_i-M) a power of two) TLC computes the closed form and compares it with "
+             "the observed aggregation along axes and as segments; on arbitrary arrays (magnitude up to 1e6, scales 1e-3..1e3) TLC "
+             "checks finiteness, 0 <= (emax-max)/s <= ln n, the shift law and axes = segments.",
+        note="TLA+ has no exp/log: outside the exact family only the laws are decided; observations are normalised by the driver.",
+        technique="TLC trace validation on an exactly solvable family + algebraic laws with rational bounds", ref="§6 C20"),
 }
 REASON_PENDING = "check under construction in this round (DESIGN.md §10); not yet claimed"
 
